@@ -436,6 +436,77 @@ def generate_engine_id_octets(pen: int, octets: bytes) -> bytes:
     return bytes(buffer)
 
 
+def validate_ber_structure(data: bytes) -> None:
+    """
+    Verify that the first BER value in *data* (and, recursively, everything
+    nested in constructed values) uses definite lengths which stay inside
+    their enclosing value.
+
+    SNMP prohibits the indefinite length form (:rfc:`3417#section-8`). This is
+    verified before the data is handed to the decoder: a value with an
+    indefinite length and without end-of-contents marker would otherwise never
+    be decoded to the end.
+
+    >>> validate_ber_structure(bytes.fromhex("30060201010400a0"))
+    Traceback (most recent call last):
+    ...
+    puresnmp.exc.SnmpError: Malformed data: truncated BER value at index 7
+    >>> validate_ber_structure(bytes.fromhex("3080020101"))
+    Traceback (most recent call last):
+    ...
+    puresnmp.exc.SnmpError: Malformed data: indefinite length at index 0
+    >>> validate_ber_structure(bytes.fromhex("3003020101"))
+
+    :param data: The bytes as received from the network (or after decryption)
+    :raises SnmpError: if the structure is malformed
+    """
+    # Each item is a range which holds a series of values. The outermost
+    # range ends after the first value. Bytes following it are ignored.
+    pending = [(0, len(data), True)]
+    while pending:
+        index, stop, only_first = pending.pop()
+        while index < stop:
+            if index + 2 > stop:
+                raise SnmpError(
+                    f"Malformed data: truncated BER value at index {index}"
+                )
+            tag = data[index]
+            first_length_octet = data[index + 1]
+            if tag & 0b11111 == 0b11111:
+                raise SnmpError(
+                    f"Malformed data: unsupported tag at index {index}"
+                )
+            if first_length_octet == 0b10000000:
+                raise SnmpError(
+                    f"Malformed data: indefinite length at index {index}"
+                )
+            if first_length_octet < 0b10000000:
+                header_size = 2
+                length = first_length_octet
+            else:
+                num_octets = first_length_octet & 0b01111111
+                header_size = 2 + num_octets
+                if index + header_size > stop:
+                    raise SnmpError(
+                        "Malformed data: truncated BER length at index "
+                        f"{index}"
+                    )
+                length = int.from_bytes(
+                    data[index + 2 : index + header_size], "big"
+                )
+            value_stop = index + header_size + length
+            if value_stop > stop:
+                raise SnmpError(
+                    f"Malformed data: BER value at index {index} exceeds "
+                    "its enclosing value"
+                )
+            if tag & 0b100000:  # constructed
+                pending.append((index + header_size, value_stop, False))
+            if only_first:
+                break
+            index = value_stop
+
+
 def validate_response_id(request_id: int, response_id: int) -> None:
     """
     Compare request and response IDs and raise an appropriate error.
